@@ -455,7 +455,51 @@ def check_plot_diagrams(project: Project, rep):
                     rep.refuted("PL-DGM", fi, ev["node"], f"{tag}: infinite deaths of `{nm}` are not replaced by the ∞-line "
                                                           f"ordinate before the scatter",
                                 construct=f"{qual}: inf replacement for {nm} ({tag})")
-        # PL-LIM
+        # PL-LIM (which values feed the range): a finite coordinate must count whatever the other coordinates of its point are
+        from ..core.values import VStack as _VS
+        import random as _rnd
+        stop_lim = False
+        for ev in I.log:
+            if ev["kind"] != "reduce" or ev.get("op") not in ("min", "max") or not isinstance(ev.get("arg"), _VS):
+                continue
+            for part in ev["arg"].ordered:
+                if part.ndim != 2 or part.axes[1][0].concrete is None:
+                    continue
+                (rsp, riv), (csp, civ) = part.axes
+                key, masks = rsp.key, []
+                while isinstance(key, tuple) and key and key[0] == "sub":
+                    masks.append(key[2])
+                    key = key[1]
+                if not masks or not (isinstance(key, tuple) and key[0] == "rows"):
+                    continue
+                nm = key[1]
+                for c in range(csp.concrete):
+                    def only_c_finite(pt_, name, idx, c=c, nm=nm):
+                        if name == nm and len(idx) == 2 and idx[1] != c:
+                            return float("inf")
+                        return None
+                    pt = symeval.Point(_rnd.Random(5), input_fn=only_c_finite)
+                    pt.ivs[riv] = 0
+                    try:
+                        kept = all(bool(symeval.ev(sym.subst_ivar(m, v_, (riv, 0)) if False else m, pt)) for m in masks
+                                   for v_ in [None])
+                    except symeval.NotEvaluable:
+                        continue
+                    if not kept:
+                        rep.refuted("PL-LIM", fi, ev["node"],
+                                    f"{tag}: the axis range is taken over the points of `{nm}` whose coordinates are ALL finite: the "
+                                    f"finite {'birth' if c == 0 else 'coordinate ' + str(c)} of a point with an infinite "
+                                    f"{'death' if c == 0 else 'other coordinate'} does not count, so such a point can be drawn outside "
+                                    f"the limits",
+                                    construct=f"{qual}: values feeding the axis range ({tag})")
+                        stop_lim = True
+                        break
+                if stop_lim:
+                    break
+            if stop_lim:
+                break
+        if stop_lim:
+            continue
         lims = {}
         for ev in I.log:
             if ev["kind"] == "draw" and ev["fi"] is fi and ev["method"] in ("set_xlim", "set_ylim"):
